@@ -63,6 +63,7 @@ PROPS['C13']={
  'obligations':[{'name':'determinism','module':'harness.C13','cls':'Determinism','quick':{'nlinks':2},'thorough':{'nlinks':3}},
                 {'name':'determinism_3links','module':'harness.C13','cls':'Determinism','quick':{'nlinks':3,'all_valid':True,'rate':400},'thorough':{'nlinks':3,'all_valid':True,'rate':400}},
                 {'name':'determinism_two_steps','module':'harness.C13','cls':'Determinism','tier_only':'thorough','quick':{},'thorough':{'nlinks':2,'two_steps':True}},
+                {'name':'determinism_one_key_under_two_ids','module':'harness.C13','cls':'Determinism','quick':{'nlinks':2,'alias':True},'thorough':{'nlinks':2,'alias':True}},
                 {'name':'history_independence','module':'harness.C13','cls':'HistoryIndependence','quick':{},'thorough':{}},
                 {'name':'verdict_after_many_failed_verifications','module':'harness.C13','cls':'RepeatedFailures','quick':{'ns':[1,10,40]},'thorough':{'ns':[1,10,40,150]}},
                 {'name':'determinism_duplicate_signatures','module':'harness.C13','cls':'Determinism','quick':{'nlinks':1,'nsig':2},'thorough':{'nlinks':2,'nsig':2}},
